@@ -595,11 +595,16 @@ def case_wire(seed, out, spec):
     r = Rng('wire', seed)
     plugins.reset()
     nplug = r.randrange(0, 4)
+    tie = int(str(seed).split(':')[-1]) % 4 == 0
+    if tie:
+        nplug = max(nplug, 2)     # two providers of equal order that both set 'shared': the later configured one wins
     names = []
     pl_attrs = []
     for i in range(nplug):
         name = 'WireRes%d' % i
         attrs = OrderedDict()
+        if tie and i < 2:
+            attrs['shared'] = 'tie%d' % i
         for _ in range(r.randrange(1, 4)):
             attrs[r.pick(['shared', 'k1', 'service.name', 'p%d' % i, 'telemetry.sdk.name'])] = 'plug%d-%d' % (i, r.randrange(9))
         if r.chance(0.5):
@@ -607,9 +612,16 @@ def case_wire(seed, out, spec):
             attrs['n%d' % i] = r.pick([7, 2 ** 63 - 1, 2 ** 63, -2 ** 63, -2 ** 63 - 1, 2 ** 64 - 1])
             out.count('numeric_plugin_attributes')
         order = r.pick([0, 1, 2, -1, -2])    # (a negative order puts the provider ahead of the built-in ones)
+        if tie and i == 1:
+            order = pl_attrs[0][0]
         plugins.make(name, ['res'], order=order, attrs=dict(attrs))
         names.append('vf.plugins.' + name)
         pl_attrs.append((order, i, attrs))
+    # the names the plugins give themselves are in no particular order (ties in order() keep the configured sequence)
+    displays = r.sample(['zeta', 'Alpha', 'mid', 'beta', 'Omega'], nplug)
+    if tie:
+        displays[:2] = sorted(displays[:2], reverse=True)
+        out.count('wire_sessions_with_equal_orders')
     env_attrs = OrderedDict()
     for _ in range(r.randrange(0, 3)):
         env_attrs[r.pick(['shared', 'k1', 'e1'])] = 'env%d' % r.randrange(9)
@@ -626,7 +638,7 @@ def case_wire(seed, out, spec):
     second = {'DEEP_SERVICE_NAME': r.pick(['svc-second', None]),
               'DEEP_RESOURCE_ATTRIBUTES': r.pick(['e1=second,k1=second', 'shared=second', None])} if restart else None
     res = e2e.call_child('vf.props.c18', 'child_wire', {
-        'plugins': [{'name': 'WireRes%d' % i, 'order': o, 'attrs': dict(a)} for o, i, a in pl_attrs],
+        'plugins': [{'name': 'WireRes%d' % i, 'order': o, 'attrs': dict(a), 'display': displays[i]} for o, i, a in pl_attrs],
         'second_env': second}, env=env)
     if res.get('inconclusive'):
         out.inconc('wire: ' + res['inconclusive'])
@@ -703,7 +715,7 @@ def child_wire(arg):
     from deepproto.proto.tracepoint.v1.tracepoint_pb2 import TracePointConfig
     names = []
     for p in arg['plugins']:
-        plugins.make(p['name'], ['res'], order=p['order'], attrs=p['attrs'])
+        plugins.make(p['name'], ['res'], order=p['order'], attrs=p['attrs'], display_name=p.get('display'))
         names.append('vf.plugins.' + p['name'])
     srv = LoopbackServer()
     line = e2e.marker_lines()['deposit_mid']
